@@ -88,6 +88,7 @@ impl<'i> Iterator for Parser<'i> {
         let res = self.parse_next();
         if res.is_err() {
             self.input = &[];
+            self.pending_list_entries = 0;
         }
         match res {
             Ok(None) => None,
